@@ -291,6 +291,18 @@ func SetCheckpoint(cli client.Redis, cp *CheckpointInfo) error {
 // @TODO update and create timestamp for GC
 // it is not transactional
 func UpdateCheckpoint(outCli client.Redis, localCheckpoint string, ids []string) error {
+	return updateCheckpoint(outCli, localCheckpoint, ids, false)
+}
+
+// ResetCheckpoint is UpdateCheckpoint for a target that is about to be filled from a snapshot :
+// the stored position describes data the snapshot replaces (after a fail-over it is an offset of
+// another history), so it is not carried over. The entry of ids[0] is written as "none yet" (-1),
+// in the same request that re-keys it.
+func ResetCheckpoint(outCli client.Redis, localCheckpoint string, ids []string) error {
+	return updateCheckpoint(outCli, localCheckpoint, ids, true)
+}
+
+func updateCheckpoint(outCli client.Redis, localCheckpoint string, ids []string, reset bool) error {
 	if len(ids) == 0 {
 		return nil
 	}
@@ -328,6 +340,9 @@ func UpdateCheckpoint(outCli client.Redis, localCheckpoint string, ids []string)
 		oldId := cpKv.RunId
 		cpKv.Key = localCheckpoint
 		cpKv.RunId = id1
+		if reset {
+			cpKv.Offset = -1
+		}
 		err = SetCheckpoint(outCli, cpKv)
 		if err != nil {
 			return err
@@ -350,6 +365,23 @@ func UpdateCheckpoint(outCli client.Redis, localCheckpoint string, ids []string)
 				}
 			}
 		}
+	} else if reset {
+		// same name, same run id : drop the entries of every database, then store "none yet" where the position was
+		cpKv, cpDb, err := GetCheckpoint(outCli, localCheckpoint, []string{id1})
+		if err != nil {
+			return err
+		}
+		if cpDb < 0 || cpKv.Offset < 0 {
+			return nil
+		}
+		if err = DelCheckpoint(outCli, localCheckpoint, id1); err != nil {
+			return err
+		}
+		if err = redis.SelectDB(outCli, uint32(cpDb)); err != nil {
+			return err
+		}
+		cpKv.Offset = -1
+		return SetCheckpoint(outCli, cpKv)
 	}
 	return nil
 }
